@@ -61,8 +61,17 @@ pub fn c19g(ctx: &Ctx, begin: &mut dyn FnMut(J)) -> Outcome {
     let custom_table = custom.replacen(&format!("table custom{}", n), &format!("table {}{}", if n % 2 == 0 { "my_table" } else { "_t" }, n), 1);
     // the same schema with a table comment that pushes the text past 8 KiB (a multi-byte character near the mark)
     let custom_long = custom.replacen("\"custom \u{3b1}\"", &format!("\"custom {}\u{3b1}\u{4e2d}{}\"", "c".repeat(8150 + n % 7), " more".repeat(40 + n)), 1);
+    // field and table names may carry index annotations and `auto`, in every combination the grammar allows
+    const ANNOT: &[&str] = &["", " primary", " unique", " index", " index[8]", " auto", " primary auto", " unique auto", " index[12] auto"];
+    let custom_annot = format!(
+        "table annot{}{}\n\"annotated\"\n(\n string chrom; \"c\"\n uint chromStart; \"s\"\n uint chromEnd; \"e\"\n{})\n",
+        n,
+        ANNOT[n % ANNOT.len()],
+        (0..n).map(|i| format!(" uint id{}{}; \"x\"\n", i, ANNOT[(i + 1 + n) % ANNOT.len()])).collect::<String>()
+    );
     for (label, autosql, want_text, want_count) in [
         ("generated", Some(schema.clone()), Some(schema.clone()), 3 + n),
+        ("custom_with_index_annotations", Some(custom_annot.clone()), Some(custom_annot.clone()), 3 + n),
         ("custom_snake_case_field_names", Some(custom_names.clone()), Some(custom_names.clone()), 3 + n),
         ("custom_snake_case_table_name", Some(custom_table.clone()), Some(custom_table.clone()), 3 + n),
         ("custom", Some(custom.clone()), Some(custom.clone()), 3 + n),
